@@ -1835,7 +1835,7 @@ MANIFEST = {
             "always enough: the whole of type_infer terminates), erasure_recovery (variable types dropped, variables declared, constant and "
             "binder types kept: exactly the original term comes back), infer_complete (a skeleton that has any well-typed completion is never "
             "rejected with a unification error: type_infer returns a term or reports 'unspecified type'), infer_principal (a returned term "
-            "has every completion as a substitution instance) + infer_principal_forbid (with forbid_internal the returned term is the only "
+            "has every completion as a substitution instance) + infer_result_is_completion (it is itself a completion) + infer_principal_forbid (with forbid_internal the returned term is the only "
             "completion), erasure_recovery_all_levels (an erasure of a well-typed term at ANY level - dropped variable types declared, "
             "dropped constant types instances of the signature - is either reported under-determined or recovered exactly), "
             "union_preserves_reach + infer_preserves_reach + final_loop_terminates (the final "
